@@ -147,7 +147,7 @@ def parse_fn_blocks(lines, origin):
                     fs.rules += s.split()[1:]
                     cur = None
                 elif s.startswith('//@sub ') or s.startswith('//@subsig '):
-                    m = re.match(r'^//@(sub|subsig)\s+(\w+)\s+`(.*)`\s*=>\s*`(.*)`\s*(\*|\d+)?\s*$', s)
+                    m = re.match(r'^//@(sub|subsig)\s+(\w+)\s+`(.*)`\s*=>\s*`(.*)`\s*(\*|\d+|last)?\s*$', s)
                     if not m:
                         raise AssembleError('%s:%d bad //@sub' % (origin, i + 1))
                     (fs.subs if m.group(1) == 'sub' else fs.sigsubs).append((m.group(2), m.group(3), m.group(4).replace('\\n', '\n'), m.group(5)))
@@ -325,6 +325,37 @@ def rule_R3c(text, deltas):
     return text
 
 
+def rule_R15(text, deltas):
+    """`for I in (A..B).rev() {`  ->  `let verif_lo = A; let mut I = B; while I > verif_lo { I -= 1;`
+    (same iteration order and bounds; Verus accepts `continue` in `while` but not in `for`)"""
+    toks = code_tokens(text)
+    T = lambda j: text[toks[j][1]:toks[j][2]]
+    for j in range(len(toks) - 8):
+        if T(j) == 'for' and toks[j + 1][0] == 'ident' and T(j + 2) == 'in' and T(j + 3) == '(':
+            c = match_close(text, toks, j + 3)
+            if c + 5 < len(toks) and T(c + 1) == '.' and T(c + 2) == 'rev' and T(c + 3) == '(' and T(c + 4) == ')' and T(c + 5) == '{':
+                inner = text[toks[j + 3][2]:toks[c][1]]
+                # split at the top-level `..`
+                it = code_tokens(inner)
+                depth = 0
+                cut = None
+                for k in range(len(it) - 1):
+                    t = inner[it[k][1]:it[k][2]]
+                    if t in '([{': depth += 1
+                    elif t in ')]}': depth -= 1
+                    elif t == '.' and depth == 0 and inner[it[k + 1][1]:it[k + 1][2]] == '.' and it[k][2] == it[k + 1][1]:
+                        cut = (it[k][1], it[k + 1][2]); break
+                if cut is None:
+                    continue
+                a_expr, b_expr = inner[:cut[0]].strip(), inner[cut[1]:].strip()
+                v = T(j + 1)
+                new = 'let verif_lo = %s; let mut %s = %s; while %s > verif_lo { %s -= 1;' % (a_expr, v, b_expr, v, v)
+                a, z = toks[j][1], toks[c + 5][2]
+                deltas.append(dict(rule='R15', original=text[a:z], rewritten=new))
+                return text[:a] + new + text[z:]
+    raise AssembleError('R15 does not apply (no `for I in (A..B).rev() {`)')
+
+
 def name_return(sig, binder):
     """`-> T` -> `-> (binder: T)`"""
     toks = code_tokens(sig)
@@ -413,8 +444,15 @@ def expand_fn(fs, assumed_override=False, notes=None):
             body = rule_R3(body, deltas)
         if 'R3c' in fs.rules:
             body = rule_R3c(body, deltas)
+        if 'R15' in fs.rules:
+            body = rule_R15(body, deltas)
         for (rule, frm, to, cnt) in fs.subs:
             k = body.count(frm)
+            if cnt == 'last' and k >= 1:
+                idx = body.rfind(frm)
+                body = body[:idx] + to + body[idx + len(frm):]
+                deltas.append(dict(rule=rule, original=frm, rewritten=to, times=1))
+                continue
             if k == 0 or (cnt is None and k != 1) or (cnt not in (None, '*') and k < int(cnt)):
                 raise AssembleError('%s: //@sub %s `%s` matches %d times' % (where, rule, frm, k))
             if cnt is None or cnt == '*':
@@ -584,6 +622,26 @@ def expand_type(srcrel, kind, name, keep=None):
     return text + '\n', meta
 
 
+def expand_guarded(fs, want_assumed, demote):
+    """expand one function; if its overlay / rewrite rules no longer apply to the (changed) text, fall back
+    to the assumed rendering and mark it: the function is then UNDECIDED, the rest of the unit is still decided"""
+    if want_assumed:
+        return expand_fn(fs, assumed_override=True)
+    if fs.key in demote:
+        t, m = expand_fn(fs, assumed_override=True)
+        m['demoted'] = True
+        return t, m
+    try:
+        return expand_fn(fs)
+    except AssembleError as e:
+        if str(e).startswith('anchor lost'):
+            raise
+        t, m = expand_fn(fs, assumed_override=True)
+        m['demoted'] = True
+        m['assemble_error'] = str(e)
+        return t, m
+
+
 def assemble(unit_path, demote=()):
     """-> (generated text, metas)  where each meta has gen_lines=[lo,hi] in the generated file"""
     out_lines = []
@@ -606,9 +664,7 @@ def assemble(unit_path, demote=()):
         rel = os.path.relpath(path, ROOT)
         for kind, it in parse_fn_blocks(lines, rel):
             if kind == 'fn':
-                t, m = expand_fn(it, assumed_override=(it.key in demote))
-                if it.key in demote:
-                    m['demoted'] = True
+                t, m = expand_guarded(it, False, demote)
                 emit(t, m)
                 continue
             s = it.strip()
@@ -628,9 +684,7 @@ def assemble(unit_path, demote=()):
                 keys = [a[1]]
                 if a[1] not in cf:
                     raise AssembleError('%s: no contract %s in %s' % (rel, a[1], a[0]))
-                t, m = expand_fn(cf[a[1]], assumed_override=('assumed' in a[2:]) or (a[1] in demote))
-                if a[1] in demote and 'assumed' not in a[2:]:
-                    m['demoted'] = True
+                t, m = expand_guarded(cf[a[1]], 'assumed' in a[2:], demote)
                 emit(t, m)
             elif s.startswith('//@'):
                 raise AssembleError('%s: unknown directive `%s`' % (rel, s))
